@@ -50,7 +50,7 @@ Print Assumptions C35_revocation_refuted.
 (* ... and so is the access token rotated away by Refresh (finding rotated-signed-token-accepted) *)
 Definition h_rotate : list (cop * cres * list N) :=
   [ (CCreateSession [97] [117] 60000000000 600000000000 1000000000, XIssued, [0; 1]);
-    (CRefresh (PTok 0 false) 2000000000 2000000000, XIssued, [2; 3]);
+    (CRefresh (PTok 0 false) 60000000000 2000000000 2000000000, XIssued, [2; 3]);
     (CValidate (PTok 0 true) 3000000000 3000000000, XOk [97] [117], [2; 3]) ].
 Theorem C35_rotation_refuted : crun (init [115]) h_rotate = true.
 Proof. vm_compute. reflexivity. Qed.
@@ -78,48 +78,63 @@ Proof.
 Qed.
 Print Assumptions C35_revocation_partial.
 
-(* "A successful refresh returns an access token that is valid when issued" is false: Refresh
-   signs with the OLD ExpiresAt; after the access expiry it succeeds and returns a token that is
-   rejected at the same instant (finding refresh-returns-expired-access-token). *)
-Definition h_refresh_expired : list (cop * cres * list N) :=
-  [ (CCreateSession [97] [117] 2000000000 600000000000 1000000000, XIssued, [0; 1]);
-    (CRefresh (PTok 0 false) 4500000000 4500000000, XIssued, [2; 3]);
-    (CValidate (PTok 1 true) 4500000000 4500000000, XErr true, []) ].
-Theorem C35_refresh_fresh_refuted : crun (init [115]) h_refresh_expired = true.
-Proof. vm_compute. reflexivity. Qed.
-Print Assumptions C35_refresh_fresh_refuted.
-
-(* Partial: the returned access token carries exactly the old expiry, and is valid (for the
-   session's user and role) at every instant up to that expiry. The two inequations say the
-   new token is a fresh string (newToken draws 24 random bytes). *)
-Theorem C35_refresh_fresh_partial :
+(* Full: a successful refresh returns an access token that is valid when issued. Refresh opens a
+   new access window n2 + ttl (n2 = the clock reading it signs with, ttl = the store's access
+   TTL): the returned token carries exactly that expiry and validates, for the session's user and
+   role, at every instant up to it - in particular at the instant of the refresh, also when the
+   old access token had already expired. The two inequations say the new token is a fresh
+   string (newToken draws 24 random bytes). *)
+Theorem C35_refresh_fresh :
   forall mac b64 b64d cenc cdec header nonce,
   (forall x, b64d (b64 x) = Some x) -> (forall c, cdec (cenc c) = Some c) ->
-  forall s t n1 n2 s' a rt,
-  refresh mac b64 cenc header nonce s t n1 n2 = (s', ROk (a, rt)) ->
+  forall s t ttl n1 n2 s' a rt,
+  refresh mac b64 cenc header nonce s t ttl n1 n2 = (s', ROk (a, rt)) ->
   exists r, find (store s) t = Some r /\
-    (exists i, log s' = log s ++ [i] /\ i_access i = a /\ i_exp i = r_exp r) /\
+    (exists i, log s' = log s ++ [i] /\ i_access i = a /\ i_exp i = n2 + ttl) /\
     (token_eqb a (r_tok r) = false ->
      match r_ref r with Some x => token_eqb a x = false | None => True end ->
-     forall m1 m2, m2 <= r_exp r ->
+     forall m1 m2, m2 <= n2 + ttl ->
        validate mac b64 b64d cdec s' a m1 m2 = (s', ROk (r_user r, r_role r))).
-Proof. intros. eapply refresh_fresh_partial; eauto. Qed.
-Print Assumptions C35_refresh_fresh_partial.
+Proof. intros. eapply refresh_fresh; eauto. Qed.
+Print Assumptions C35_refresh_fresh.
+
+Theorem C35_refresh_valid_when_issued :
+  forall mac b64 b64d cenc cdec header nonce,
+  (forall x, b64d (b64 x) = Some x) -> (forall c, cdec (cenc c) = Some c) ->
+  forall s t ttl n1 n2 s' a rt,
+  refresh mac b64 cenc header nonce s t ttl n1 n2 = (s', ROk (a, rt)) ->
+  exists r, find (store s) t = Some r /\
+    (token_eqb a (r_tok r) = false ->
+     match r_ref r with Some x => token_eqb a x = false | None => True end ->
+     validate mac b64 b64d cdec s' a n2 n2 = (s', ROk (r_user r, r_role r))).
+Proof. intros. eapply refresh_valid_when_issued; eauto. Qed.
+Print Assumptions C35_refresh_valid_when_issued.
+
+(* the history that used to refute it (refresh 1.5 s after the access expiry, then validate
+   the new token at the same instant) now ends in acceptance; 4 s later the token is still good *)
+Definition h_refresh_after_expiry : list (cop * cres * list N) :=
+  [ (CCreateSession [97] [117] 2000000000 600000000000 1000000000, XIssued, [0; 1]);
+    (CRefresh (PTok 0 false) 5000000000 4500000000 4500000000, XIssued, [2; 3]);
+    (CValidate (PTok 1 true) 4500000000 4500000000, XOk [97] [117], [2; 3]);
+    (CValidate (PTok 1 true) 8500000000 8500000000, XOk [97] [117], [2; 3]);
+    (CValidate (PTok 1 true) 9600000000 9600000000, XErr true, []) ].
+Example C35_refresh_after_expiry : crun (init [115]) h_refresh_after_expiry = true.
+Proof. vm_compute. reflexivity. Qed.
 
 (* Full: the old refresh token stops working. After a successful Refresh in any reachable state
    the presented token is no longer in the session table and presenting it again fails. *)
 Theorem C35_refresh_rotates :
   forall mac b64 b64d cenc cdec header nonce,
   (forall x, b64d (b64 x) = Some x) -> (forall c, cdec (cenc c) = Some c) ->
-  forall sec0 ops t n1 n2 s' a rt,
+  forall sec0 ops t ttl n1 n2 s' a rt,
   let s := run mac b64 b64d cenc cdec header nonce (init sec0) ops in
-  refresh mac b64 cenc header nonce s t n1 n2 = (s', ROk (a, rt)) ->
+  refresh mac b64 cenc header nonce s t ttl n1 n2 = (s', ROk (a, rt)) ->
   token_eqb t a = false -> token_eqb t rt = false ->
   find (store s') t = None /\
-  (forall m1 m2, fst (refresh mac b64 cenc header nonce s' t m1 m2) = s' /\
-                 snd (refresh mac b64 cenc header nonce s' t m1 m2) = RErr EInvalid).
+  (forall ttl' m1 m2, fst (refresh mac b64 cenc header nonce s' t ttl' m1 m2) = s' /\
+                      snd (refresh mac b64 cenc header nonce s' t ttl' m1 m2) = RErr EInvalid).
 Proof.
-  intros mac b64 b64d cenc cdec header nonce Hb Hc sec0 ops t n1 n2 s' a rt s H Ha Hr.
+  intros mac b64 b64d cenc cdec header nonce Hb Hc sec0 ops t ttl n1 n2 s' a rt s H Ha Hr.
   eapply refresh_rotates; eauto. apply Inv_run; auto. apply Inv_init.
 Qed.
 Print Assumptions C35_refresh_rotates.
